@@ -27,7 +27,7 @@ def one(sid):
                            cwd=wt, env=env, capture_output=True, text=True, timeout=3600)
         res = {}
         for tc in ET.parse(j).iter('testcase'):
-            res[tc.get('classname') + '::' + tc.get('name')] = not any(c.tag in ('failure', 'error', 'skipped') for c in tc)
+            res[(tc.get('classname') + '::' + tc.get('name')).replace(wt, '/repo')] = not any(c.tag in ('failure', 'error', 'skipped') for c in tc)
         failing = sorted(s for s in stable if not res.get(s, False))
         out = {'repo_commit': subprocess.run(['git', '-C', '/repo', 'log', '--format=%h', '-1'], capture_output=True, text=True).stdout.strip(),
                'compiles': comp.returncode == 0, 'demo_rc_clean': clean, 'demo_rc_patched': patched,
